@@ -76,8 +76,10 @@ def set_check(run, pid, tier, seed, replay, n_quick, n_thorough, judge, identity
                 run.violation("corr:%s/phase model and implementation differ" % pid,
                               {"correspondence": "PhaseCorr.agree", "scenario": sc, "impl": obs}, False)
         n += len(pres)
+        if pid == "C11":
+            pc.dryrun_fault_stage(run, pid, tier, seed, pres, identity)
         samples += [{"scenario": s, "impl": {k: o[k] for k in ("res", "viol", "events") if k in o}} for s, o, _ in pres[:1]]
-    run.cov["evaluations"] = n
+    run.cov["evaluations"] = n + run.cov.get("dryrun_fault_stage", {}).get("evaluations", 0)
     run.cov["rule"] = rule + ("; plus ObjectSets with delegated phases and pre-existing ObjectSetPhase objects in arbitrary states "
                               "(stale / current status, paused mismatch, stale status.remotePhases uid, deleting, foreign controller, "
                               "other class, terminating namespace); distinct = (level, lifecycle/flavor, outcome, request kinds in order)")
